@@ -18,6 +18,10 @@ CLAIMED = {
          "Deductive proof for all VAAs and address lists: the verdict is true exactly when every signature recovers over the VAA's digest to the address at its claimed index, indices are in range and strictly ascending and signers distinct; no panic on any signature bytes.",
          "Trusted: govc, SMT solvers; secp256k1 recovery and keccak are uninterpreted functions (so 'changing a body bit changes the verdict' is not claimed, only that the verdict is a function of the digest and the signature list).",
          "DESIGN.md §3-C06"),
+ "C11": ("functional contracts (accept-iff-fits + exact value) on the field decoders, ToWormholeMessage, toMessagePublication, parseAttestToken (offsets extracted from token_bridge.ral), hex/base58 helpers; inverse lemma; SMT",
+         "Deductive proof for all event fields: an event is decoded iff its six fields fit the VAA format and then carries exactly those values, the block timestamp split as (ms div 1000, ms mod 1000) and chain id 255; out-of-range or negative values are rejected, never wrapped; attestation payload offsets equal the Ralph encoder's; no panic.",
+         "Trusted: govc, SMT solvers; assumed contracts of math/big (SetString/Cmp/Sign/IsUint64/Uint64), encoding/hex, base58 (uninterpreted, Decode(Encode(b))=b), bytes.Trim (uninterpreted), time.Unix; Ralph source is a spec input (regex extraction, fails closed).",
+         "DESIGN.md §3-C11"),
  "C07": ("contract (requires/ensures) on CalculateQuorum discharged by SMT; Solidity and Ralph formulas parsed into SMT terms each run and proved equal; BFT lemmas",
          "Deductive proof, for every n in the stated range (unbounded above up to the overflow side-condition), that the node's quorum function equals floor(2n/3)+1 and that the formulas in Messages.sol and governance.ral compute the same; quorum_bft proves >2n/3, <=n and the intersection bound.",
          "Trusted: govc, SMT solvers, the extraction of the two contract formulas (integer + * / only, fails closed). Integer overflow excluded by the requires clause (n <= (2^63-1)/10); callers pass len(keys).",
